@@ -47,15 +47,18 @@ func (e *Engine) loopModified(fr *Frame, body map[*ssa.BasicBlock]bool) (cells m
 			switch v := in.(type) {
 			case *ssa.Store:
 				root := rootAlloc(v.Addr)
-				if root != nil && !root.Heap {
+				if root != nil {
+					// also a variable go/ssa places on the heap because a function literal captures
+					// it: the engine may keep it as a local cell (allocEscapes), and that cell is
+					// modified by the loop like any other
 					cells[root] = true
-				} else {
+				}
+				if root == nil || root.Heap {
 					heapAll = true
 				}
 			case *ssa.Alloc:
-				if !v.Heap {
-					cells[v] = true
-				} else {
+				cells[v] = true
+				if v.Heap {
 					heapAll = true
 				}
 			case *ssa.Call:
